@@ -9,7 +9,7 @@ import numpy as np
 from vlib import sigfile
 
 WRITERS = ("invert_freq", "apply_channel_mask", "downsample", "extract_samps", "extract_chans", "extract_bands", "subband", "remove_zerodm",
-           "requantize", "block_to_file", "ts_to_tim", "fs_to_spec", "extract_chans_b2", "extract_bands_b2", "mask_none_2files")
+           "requantize", "block_to_file", "ts_to_tim", "fs_to_spec", "extract_chans_b2", "extract_bands_b2", "mask_none_2files", "clean_rfi_subrange")
 N, NCH = 24, 8
 
 
@@ -87,6 +87,9 @@ def run_writer(writer, d, gulp, nbits=8, seed=0, preexisting=False):
         os.rename(pb, os.path.join(d, "in2.fil"))
         fil2 = FilReader([os.path.join(d, "in.fil"), os.path.join(d, "in2.fil")])
         return [fil2.apply_channel_mask(np.zeros(NCH, dtype=bool), 3, out, gulp=gulp, quiet=True, description="v")]
+    if writer == "clean_rfi_subrange":
+        # the two-pass cleaner on a sub-range (statistics pass first, then the masked copy): the product appears once, with its final header
+        return [fil.clean_rfi(method="mad", threshold=3.0, freq_mask=[(1455.0, 1465.0)], outfile_name=out, start=3, nsamps=17, **kw)[0]]
     if writer == "invert_freq":
         return [fil.invert_freq(out, **kw)]
     if writer == "apply_channel_mask":
